@@ -50,3 +50,49 @@ def gen_success_scenario(rng, n_ops=None, small=False):
     k = n_ops or rng.choice([1, 1, 2, 3])
     ops = [gen_map_op(rng, pool['n_jobs'], small=small) for _ in range(k)]
     return {'seed': rng.randint(0, 10 ** 6), 'pool': pool, 'ops': ops}
+
+
+def gen_fail_scenario(rng, kinds=('ValueError', 'Custom', 'Attr', 'KeyError', 'SystemExit')):
+    sc = gen_success_scenario(rng, n_ops=1)
+    op = sc['ops'][0]
+    if op.get('input') == 'nd':
+        op['input'] = 'list'
+    if op['n'] < 2:
+        op['n'] = rng.randint(2, 20)
+    if op.get('iterable_len') is not None:
+        op['iterable_len'] = op['n']
+    r = rng.random()
+    if r < .7:
+        k = rng.choice([1, 1, 2])
+        op['fail'] = {'at': sorted(rng.sample(range(op['n']), min(k, op['n']))), 'exc': rng.choice(kinds)}
+    elif r < .85:
+        op['init'] = True
+        op['fail'] = {'init': rng.choice(['all', 'Worker-0']), 'exc': rng.choice(kinds)}
+    else:
+        op['exit'] = True
+        op['fail'] = {'exit': rng.choice(['all', 'Worker-0']), 'exc': rng.choice(kinds)}
+    op['dur'] = {'kind': 'hash', 'salt': rng.randint(0, 99), 'unit': rng.choice([0.001, 0.01])}
+    sc['latency_bound'] = 3.0
+    return sc
+
+
+def gen_apply_op(rng, n_jobs, with_failures=True):
+    k = rng.randint(1, 10)
+    op = {'op': 'apply_batch', 'tasks': [{'idx': i, 'gap': rng.choice([0, 0, 0.01])} for i in range(k)]}
+    durs = {}
+    if with_failures and rng.random() < .6:
+        op['fail'] = {'at': sorted(rng.sample(range(k), rng.randint(0, min(3, k)))), 'exc': rng.choice(['ValueError', 'Custom', 'KeyError'])}
+    if with_failures and rng.random() < .5:
+        op['task_timeout'] = 0.2
+        for i in rng.sample(range(k), rng.randint(0, min(3, k))):
+            if i not in (op.get('fail') or {}).get('at', ()):
+                durs[str(i)] = rng.choice([2.0, 5.0, 1000.0])
+    op['dur'] = {'kind': 'map', 'map': durs, 'default': rng.choice([0.0, 0.01, 0.05])}
+    order = list(range(k))
+    rng.shuffle(order)
+    op['wait_order'] = order
+    if rng.random() < .3:
+        op['join_first'] = True
+    if rng.random() < .3:
+        op['init'] = True
+    return op
